@@ -1131,7 +1131,7 @@ package kcache
   at call(scheduleRetry) assert [retry-resumes-after-the-last-event-received] (= $2 gver)
   at call(scheduleRetry) assert [retries-do-not-go-through-the-controller-reset-channel] (not (= $1 {w.resetch}))
   at send(outch) assert [forwards-the-session-event-unmodified] (= $val lastEvt)
-  at send()#2 assert [hands-the-current-output-channel-to-the-controller] (= $val {outch})
+  at send(reqch) assert [hands-the-current-output-channel-to-the-controller] (= $val {outch})
   at call(ShutdownInitiated) assert [shutdown-initiated-once] (= lc 0)
   at call(ShutdownInitiated) set lc := 1
   at call(ShutdownCompleted) assert [after-shutdown-initiated] (= lc 1)
@@ -2000,10 +2000,9 @@ package kcache
   ghost nl : Int := 0
   ghost nw : Int := 0
   modifies b.lb.client b.wb.client
-  at call(Client)#1 assert [the-listers-client] (and (= $0 {b.lb}) (= $1 {client}))
-  at call(Client)#1 set nl := (+ nl 1)
-  at call(Client)#2 assert [the-watchers-client] (and (= $0 {b.wb}) (= $1 {client}))
-  at call(Client)#2 set nw := (+ nw 1)
+  at call(Client) assert [the-builders-own-lister-or-watcher-builder-gets-the-client] (and (or (= $0 {b.lb}) (= $0 {b.wb})) (= $1 {client}))
+  at call(Client) set nl := (+ nl (ite (= $0 {b.lb}) 1 0))
+  at call(Client) set nw := (+ nw (ite (= $0 {b.wb}) 1 0))
   exit [both-set-once] (and (= nl 1) (= nw 1) (= result {b}))
 @*/
 /*@ func (*kcache.builder).Log
